@@ -83,6 +83,10 @@ type vObj struct {
 	NS        string  `json:"ns"`
 	Name      string  `json:"name"`
 	Anno      string  `json:"anno"`
+	// spec.disabled / spec.strategy.paused of the submitted object: no validation rule reads them (the model ignores them);
+	// they are generated because "the user gives up / pauses while a release is progressing" is when edits get sloppy
+	Disabled bool  `json:"disabled,omitempty"`
+	Paused   bool  `json:"paused,omitempty"`
 	Ref       *vRef   `json:"ref"`
 	Canary    *vStrat `json:"canary"`
 	BlueGreen *vStrat `json:"blueGreen"`
@@ -283,6 +287,7 @@ func betaObj(o *vObj) *v1beta1.Rollout {
 		r.Spec.Strategy.BlueGreen = &v1beta1.BlueGreenStrategy{Steps: betaSteps(o.BlueGreen.Steps),
 			TrafficRoutings: betaTRs(o.BlueGreen.TRs)}
 	}
+	r.Spec.Disabled, r.Spec.Strategy.Paused = o.Disabled, o.Paused
 	return r
 }
 
@@ -297,6 +302,7 @@ func alphaObj(o *vObj) *v1alpha1.Rollout {
 	if o.Canary != nil {
 		r.Spec.Strategy.Canary = &v1alpha1.CanaryStrategy{Steps: alphaSteps(o.Canary.Steps), TrafficRoutings: alphaTRs(o.Canary.TRs)}
 	}
+	r.Spec.Disabled, r.Spec.Strategy.Paused = o.Disabled, o.Paused
 	return r
 }
 
@@ -679,6 +685,7 @@ func genStrat(c *Ctx, version string, blueGreen bool, limit int) *vStrat {
 func genObj(c *Ctx, version string, limit int) vObj {
 	ref := pick(c, vRefPool)
 	o := vObj{NS: pick(c, []string{"ns1", "ns1", "ns2"}), Name: pick(c, []string{"r1", "r2", "r3"}), Ref: &ref}
+	o.Disabled, o.Paused = c.Rng.Intn(5) == 0, c.Rng.Intn(6) == 0
 	if version == "v1alpha1" {
 		o.Anno = pick(c, vAnnos[:8])
 		o.Canary = genStrat(c, version, false, limit)
